@@ -173,11 +173,17 @@ func KeyForOSMKey(key string) string {
 	if k, ok := osmTagMapping[key]; ok {
 		return k
 	}
+	return keyAvoidingGeometryTags(key, "osm")
+}
+
+// keyAvoidingGeometryTags returns the key under which a tag (or property)
+// from an external source is stored. The keys b6 keeps a feature's geometry
+// under are reserved: a source tag with one of them would otherwise be
+// overwritten or shadowed by the geometry, or (a "point" tag on a path) be
+// mistaken for it, so it's stored as source:key instead.
+func keyAvoidingGeometryTags(key string, source string) string {
 	if key == b6.PointTag || key == b6.PathTag {
-		// Reserved for the feature's geometry: an OSM tag with one of these
-		// keys would otherwise be overwritten by, or (a "point" tag on a way)
-		// be mistaken for, the geometry.
-		return "osm:" + key
+		return source + ":" + key
 	}
 	return key
 }
